@@ -145,7 +145,17 @@ func C03(c *Ctx) {
 						}
 					}
 				}
-				r.Check(bound, "C03.veto-subject", fn, "FireBefore("+c.EventName(g.Event)+").request", posf(c, g.Call), "veto handlers inspect the user that is then logged in", "the request handed to the veto handlers (identities: "+names(ro)+") does not carry the user whose PID is written ("+names(vo)+")")
+				// … on every way of arriving at the fire: a request that may already hold
+				// another user (a helper that leaves an existing context user in place)
+				// has the vetoes inspect that other account
+				if bound {
+					if hasInstall := len(c.ctxChain(g.Req, 0).may["user"]) > 0; hasInstall {
+						if _, must := c.ctxChain(g.Req, 0).must["user"]; !must {
+							bound = false
+						}
+					}
+				}
+				r.Check(bound, "C03.veto-subject", fn, "FireBefore("+c.EventName(g.Event)+").request", posf(c, g.Call), "veto handlers inspect the user that is then logged in", "the request handed to the veto handlers (identities: "+names(ro)+") does not carry the user whose PID is written ("+names(vo)+") on every path: where it does not, lock and confirm inspect whoever the request already named")
 			}
 		}
 	}
